@@ -157,7 +157,7 @@ theorem openClient_ok_elim {P : Prims} (hP : P.Ok) (key data : Bytes) (m : Msg)
     -- the key must be long enough, else generateAESIGE panics
     by_cases hk : 136 ≤ key.length
     · unfold decrypt at h
-      rw [kdf_eq_spec P 8 _ key (by omega)] at h
+      rw [kdfG_eq_spec P 8 _ key (by omega)] at h
       simp only [] at h
       -- the ciphertext must be whole blocks
       cases hchk : igeCheck (data.drop 24) with
@@ -244,7 +244,7 @@ theorem openClient_ok_elim {P : Prims} (hP : P.Ok) (key data : Bytes) (m : Msg)
             omega
     · exfalso
       unfold decrypt at h
-      rw [kdf_panics P 8 _ key (by omega)] at h
+      rw [kdfG_short P 8 _ key (by omega)] at h
       cases h
 
 /-! ### no panic on the repaired receive path -/
@@ -274,7 +274,7 @@ theorem openClientG_fixed_no_panic (P : Prims) (key data : Bytes) (hk : 136 ≤ 
   split
   · rfl
   · unfold decrypt
-    rw [kdf_eq_spec P 8 _ key (by omega)]
+    rw [kdfG_eq_spec P 8 _ key (by omega)]
     simp only []
     cases igeCheck _ with
     | some e => rfl
